@@ -11,6 +11,9 @@ COMMON_TRUSTED = [
 
 # (file under coq/Gen, acra-vh arguments that print it): regenerated from /repo on every run
 GENERATORS = [
+    ("TlsWrapper.v", ["tlswrapper"]),
+    ("IsoTokenConsts.v", ["isotokenconsts"]),
+    ("KeyNames.v", ["keynames"]),
     ("KsConsts.v", ["ksconsts"]),
     ("KeyStates.v", ["keystates"]),
     ("TokenConsts.v", ["tokenconsts"]),
@@ -25,6 +28,51 @@ def dom(name, run_mod, nq, nt, model=True):
 
 
 PROPS = {
+    "C02": {
+        "domains": [
+            {
+                "name": "c02",
+                "run_vo": "Model/RunEnvelope.vo",
+                "n_quick": 30,
+                "n_thorough": 900,
+                "model": True
+            },
+            {
+                "name": "c02tls",
+                "run_vo": "Model/RunTls.vo",
+                "n_quick": 6,
+                "n_thorough": 120,
+                "model": True
+            },
+            {
+                "name": "c02ks",
+                "run_vo": "Model/RunKeyNames.vo",
+                "n_quick": 4,
+                "n_thorough": 60,
+                "model": True
+            },
+            {
+                "name": "c02tok",
+                "run_vo": "Model/RunIsoTokens.vo",
+                "n_quick": 22,
+                "n_thorough": 400,
+                "model": True
+            }
+        ],
+        "trusted": [
+            "Gen/TlsWrapper.v: go/ast reading of tls_service.go / api_grpc.pb.go by `acra-vh tlswrapper` (syntactic shape of each wrapper method); cross-checked every run against the compiled DecryptService method set and by forged requests through the real wrapper",
+            "modelled, not verified: gRPC transport, TLS handshake and certificate-to-id mapping (network/tls_authentication.go); the keystore is reduced to 'the keyset an identity resolves to'",
+            "hooks (verif build tag, add-only): network/export_verif.go (constructor of the client-id carrying connection), pseudonymization/export_verif.go (generateDataID and storage constants)",
+            "key store part: storage names only; key-encryption contexts and the Themis cell are exercised by the harness (relocation oracle), not modelled; harness/vh/memfs.go (in-memory filesystem.Storage written for the harness) and vh.SpyBackend record the paths the real key stores access; Gen/KeyNames.v is derived from those observations with a probe id; ValidateID's rune loop is modelled as a byte loop over the accepted byte set probed from the real function; Go's filepath.Join/Clean is not modelled (name_v2 is defined only for ids that Join leaves verbatim; JoinPlain cases tie that predicate to the real filepath.Join)",
+            "token part: modelled TokenType_Bytes only; MemoryTokenStorage (boltdb/redis scope by the same AggregateTokenContextToBytes: read, not modelled); hex.EncodeToString of map keys taken as injective; TokenValue protobuf decoder restricted to canonical encodings; literals `client`/`zone` checked by replay only"
+        ],
+        "assumptions": [
+            "Correct C (Themis seal/wrap round-trip and length laws) as an explicit premise; NO unforgeability / key-commitment assumption: isolation theorems are reductions to an explicit forgery witness or a shared key",
+            "plaintext length < 2^32-1024",
+            "v1 key-name injectivity excludes the legacy AcraConnector key pair purposes (refuted with them: known finding keyname-collision-legacy-connector)",
+            "detokenization: no operation of the history ran under B's storage scope (B's own tokenizations are outside the statement; covered by the harness oracle); SHA-256 / HMAC collisions appear as explicit witnesses, never assumed away"
+        ]
+    },
     "C14": {
         "properties": ["C14", "C14_envelope", "C14_wire", "C14_tokens"],
         "domains": [
